@@ -73,7 +73,7 @@ func Run(c *core.Ctx, replay string) (*core.Result, error) {
 		progs = []*absprog.Prog{&rc.Prog}
 		seed = rc.Seed
 	} else {
-		progs = c02.Programs(c.Seed, nProg, func(o *absprog.Opts, rng *rand.Rand) { o.NoNamedRec = true; o.MixedArrays = true; o.OddEnumValues = true })
+		progs = c02.Programs(c.Seed, nProg, func(o *absprog.Opts, rng *rand.Rand) { o.NoNamedRec = true; o.MixedArrays = true; o.OddEnumValues = true; o.OmitEmpty = true })
 		for _, p := range progs {
 			addTable(p)
 		}
